@@ -61,23 +61,38 @@ impl fmt::Debug for FsWatcherBuilder {
 fn id_of_path(id_builder: &mut IdBuilder, root: &Path, path: &Path) -> Option<OwnedDirEntry> {
     id_builder.reset();
 
-    for comp in path.parent()?.strip_prefix(root).ok()?.components() {
+    // Resolve `.` and `..` components of the part of the path within the root.
+    let mut components = Vec::new();
+    for comp in path.strip_prefix(root).ok()?.components() {
         match comp {
-            path::Component::Normal(s) => id_builder.push(s.to_str()?)?,
-            path::Component::ParentDir => id_builder.pop()?,
+            path::Component::Normal(s) => components.push(s),
+            path::Component::ParentDir => {
+                components.pop()?;
+            }
             path::Component::CurDir => continue,
             _ => return None,
         }
     }
 
+    let (name, parents) = match components.split_last() {
+        Some(split) => split,
+        // `path` is the root itself
+        None => return Some(OwnedDirEntry::Directory(id_builder.join())),
+    };
+
+    for comp in parents {
+        id_builder.push(comp.to_str()?)?;
+    }
+
     // Build the id of the file.
-    id_builder.push(path.file_stem()?.to_str()?)?;
+    let name = Path::new(name);
+    id_builder.push(name.file_stem()?.to_str()?)?;
     let id = id_builder.join();
 
     let entry = if path.is_dir() {
         OwnedDirEntry::Directory(id)
     } else {
-        let ext = crate::utils::extension_of(path)?.into();
+        let ext = crate::utils::extension_of(name)?.into();
         OwnedDirEntry::File(id, ext)
     };
 
